@@ -266,7 +266,7 @@ theorem step_execz18 (P : Program) (hP : P.cdna3 = false) (base k : Nat)
     outputs.  32-bit destination. -/
 theorem step_valu32 (P : Program) (hP : P.cdna3 = false) (base k sz ft op : Nat)
     (hd : DecV ((P.code.drop k).take 8) ft op sz) (hft : 4 < ft) (name : String)
-    (e : VEnc) (hs : Simple e) (hsd : e.sdst = 106) (hw : e.op.wd = 32)
+    (e : VEnc) (hs : Simple e) (hsd : e.sdst = 106) (hw : (e.op.kind == Kind.cmp) = false → e.op.wd = 32)
     (st : St) (V : View) (h : Sees st V) (hpc : V.pc = base + k)
     (hex : exec false { st with pc := base + k + sz } (((P.code.drop k).take 8).take sz) =
       some (name, execVALU { st with pc := base + k + sz } e))
@@ -303,12 +303,13 @@ theorem step_valu32 (P : Program) (hP : P.cdna3 = false) (base k sz ft op : Nat)
         simp only [List.mem_cons, List.mem_nil_iff, or_false] at hw'
         subst hw'; rfl)]
     unfold laneW
-    rw [h1.exec, hO l hl, hw]
+    rw [h1.exec, hO l hl]
     simp only
     by_cases hx : V.exec.testBit l = true
     · by_cases hc : (e.op.kind == Kind.cmp) = true
       · simp [hx, hc, h1.rv r l hr hl]
       · have hc' : (e.op.kind == Kind.cmp) = false := by simpa using hc
+        rw [hw hc']
         simp only [hx, hc', Bool.not_true, Bool.false_eq_true, if_false, sel_wrV32 r l e.vdst (d l) _ hl, true_and]
         by_cases hrd : r = e.vdst
         · simp [hrd, lo32]
@@ -400,7 +401,7 @@ theorem step_vadd (P : Program) (hP : P.cdna3 = false) (base k S R D : Nat) (hS 
                rv := fun r l => if V.exec.testBit l = true ∧ r = D
                                 then (V.rs S % 2 ^ 32 + V.rv R l % 2 ^ 32) % 2 ^ 32 else V.rv r l } := by
   obtain ⟨st', hs, hv⟩ := step_valu32 P hP base k 4 6 25 hd (by omega) _ (eAdd S R D)
-    ⟨rfl, Or.inr (Or.inl rfl), rfl⟩ rfl rfl st V h hpc (hex _)
+    ⟨rfl, Or.inr (Or.inl rfl), rfl⟩ rfl (fun _ => rfl) st V h hpc (hex _)
     (fun l => (V.rs S % 2 ^ 32 + V.rv R l % 2 ^ 32) % 2 ^ 32)
     (fun l => decide (V.rs S % 2 ^ 32 + V.rv R l % 2 ^ 32 ≥ 2 ^ 32))
     (by
@@ -452,7 +453,7 @@ theorem step_vaddc (P : Program) (hP : P.cdna3 = false) (base k A B D : Nat) (hA
                                 then (V.rv A l % 2 ^ 32 + V.rv B l % 2 ^ 32 + (V.vcc.testBit l).toNat) % 2 ^ 32
                                 else V.rv r l } := by
   obtain ⟨st', hs, hv⟩ := step_valu32 P hP base k 4 6 28 hd (by omega) _ (eAddc A B D)
-    ⟨rfl, Or.inr (Or.inr (Or.inl rfl)), rfl⟩ rfl rfl st V h hpc (hex _)
+    ⟨rfl, Or.inr (Or.inr (Or.inl rfl)), rfl⟩ rfl (fun _ => rfl) st V h hpc (hex _)
     (fun l => (V.rv A l % 2 ^ 32 + V.rv B l % 2 ^ 32 + (V.vcc.testBit l).toNat) % 2 ^ 32)
     (fun l => decide (V.rv A l % 2 ^ 32 + V.rv B l % 2 ^ 32 + (V.vcc.testBit l).toNat ≥ 2 ^ 32))
     (by
@@ -493,7 +494,7 @@ theorem step_vmov (P : Program) (hP : P.cdna3 = false) (base k c D : Nat)
       { V with pc := base + k + 4,
                rv := fun r l => if V.exec.testBit l = true ∧ r = D then val l else V.rv r l } := by
   obtain ⟨st', hs, hv⟩ := step_valu32 P hP base k 4 7 1 hd (by omega) _ (eMov c D)
-    ⟨rfl, Or.inl rfl, rfl⟩ rfl rfl st V h hpc (hex _) val (fun _ => false)
+    ⟨rfl, Or.inl rfl, rfl⟩ rfl (fun _ => rfl) st V h hpc (hex _) val (fun _ => false)
     (by
       intro l hl
       rw [laneO_eMov, hval l hl])
@@ -511,7 +512,7 @@ theorem step_vmov (P : Program) (hP : P.cdna3 = false) (base k c D : Nat)
 /-- integer compare (VOPC) sS, vR with lane predicate `c` -/
 theorem step_vcmp32 (P : Program) (hP : P.cdna3 = false) (base k op S R : Nat) (hS : S ≤ 101) (hR : R < 256)
     (hd : DecV ((P.code.drop k).take 8) 10 op 4) (name : String) (e : VEnc)
-    (hs : Simple e) (hk : e.op.kind = .cmp) (hsd : e.sdst = 106) (hwd : e.op.wd = 32) (hty : e.op.ty = .int)
+    (hs : Simple e) (hk : e.op.kind = .cmp) (hsd : e.sdst = 106) (hty : e.op.ty = .int)
     (hw0 : e.op.w0 = 32) (hw1 : e.op.w1 = 32) (hn : e.op.nsrc = 2) (hs0 : e.src0 = S) (hs1 : e.src1 = 256 + R)
     (c : Nat → Nat → Bool) (hf : ∀ x : LaneIn, (e.op.f x).co = c x.a x.b)
     (hex : ∀ st, exec false st (((P.code.drop k).take 8).take 4) = some (name, execVALU st e))
@@ -519,7 +520,7 @@ theorem step_vcmp32 (P : Program) (hP : P.cdna3 = false) (base k op S R : Nat) (
     ∃ st', step P base st = .ok (st', .next) ∧ Sees st'
       { V with pc := base + k + 4,
                vcc := maskUpTo (fun l => V.exec.testBit l && c (V.rs S % 2 ^ 32) (V.rv R l % 2 ^ 32)) 64 } := by
-  obtain ⟨st', hst, hv⟩ := step_valu32 P hP base k 4 10 op hd (by omega) name e hs hsd hwd st V h hpc (hex _)
+  obtain ⟨st', hst, hv⟩ := step_valu32 P hP base k 4 10 op hd (by omega) name e hs hsd (fun hc => by rw [hk] at hc; cases hc) st V h hpc (hex _)
     (fun l => (laneO { st with pc := base + k + 4 } e l).d)
     (fun l => c (V.rs S % 2 ^ 32) (V.rv R l % 2 ^ 32))
     (by
